@@ -3,7 +3,7 @@ G: ProgramBlob_Gen enumerates blobs from the grammar of standard-program and inn
    truncations, bitmask faults, code ending inside an instruction, jump/branch/table targets around |c| and 2^32-1,
    gas-exhaustion loops, sbrk; this script adds seeded bit flips of the valid blobs.
 X: harness/blob (in-package PVM): SingleInitializer, Psi_M, DeBlobProgramCode, the interpreter, refine host calls
-   machine + invoke, under recover(), a 10 s watchdog, a heap watchdog and TotalAlloc accounting; the driver is restarted
+   machine + invoke, under recover(), a CPU-time watchdog (30 s; 120 s when re-run alone), a heap watchdog and TotalAlloc accounting; the driver is restarted
    after a case that hangs, blows the heap or kills the process (such a case is re-run alone to confirm).
 V: ProgramBlob_Trace: no Go panic / hang / death; malformed => panic (HUH), well-formed => a defined PVM outcome;
    gas used within [0, limit]; alloc <= K + c * declared."""
@@ -64,7 +64,7 @@ def run_cases(ctx, binp, cases, name, confirm=True):
     skip, restarts, careful = 0, 0, False
     abnormal = []
     while skip < len(cases):
-        r = vf.run_driver(ctx, binp, "TestVerifBlob", env={"VF_CASES": casep, "VF_OUT": tracep, "VF_SKIP": skip, "VF_WATCHDOG_S": 30 if confirm else 90,
+        r = vf.run_driver(ctx, binp, "TestVerifBlob", env={"VF_CASES": casep, "VF_OUT": tracep, "VF_SKIP": skip, "VF_WATCHDOG_S": 30 if confirm else 120,
                                                            "VF_FLUSH_EVERY": 1 if careful else 64},
                           timeout=2400, allow_fail=True)
         lines = vf.read_lines(tracep)
@@ -92,10 +92,16 @@ def run_cases(ctx, binp, cases, name, confirm=True):
             careful = False
         restarts += 1
         if restarts > 40:
+            if abnormal:
+                vf.log("  note: %d abnormal cases in this slice; the remaining %d cases are not run" % (len(abnormal), len(cases) - skip))
+                break
             raise vf.Infra("driver restarted more than 40 times")
     lines = vf.read_lines(tracep)
     if confirm:
+        confirmed = 0
         for idx in abnormal:                                 # DESIGN 4.1: only if the persisted case does it again
+            if confirmed >= 2:                               # two confirmed are a verdict already; do not spend 40 s on each further one
+                break
             again = run_cases(ctx, binp, [cases[idx]], "%s-confirm%d" % (name, idx), confirm=False)
             ra, ro = json.loads(again[0]), json.loads(lines[idx])
             if not (ra["hang"] or ra["mem"] or ra["died"]):
@@ -103,6 +109,8 @@ def run_cases(ctx, binp, cases, name, confirm=True):
                     idx, "hang" if ro["hang"] else "mem" if ro["mem"] else "died"))
                 ra["id"] = idx
                 lines[idx] = json.dumps(ra)
+            else:
+                confirmed += 1
     return lines
 
 
@@ -124,7 +132,7 @@ def run(ctx):
                         "well-formed blobs may end in any defined PVM outcome (which one is C01's property); malformed ones must panic / HUH",
                         "allocation bound K = 4 MiB, c = 256 per declared KiB (blob, argument, and the regions a parsable standard header asks for); "
                         "TotalAlloc is measured over all entry points run for the case",
-                        "host calls are absent (nil table -> WHAT) in Psi_M runs; gas <= 10^4; 10 s watchdog; 3 GiB heap watchdog"]
+                        "host calls are absent (nil table -> WHAT) in Psi_M runs; gas <= 10^4; watchdog = 30 s of process CPU time per case (120 s when the case is re-run alone); 3 GiB heap watchdog"]
     binp = vf.build_driver(ctx, "blob", "./PVM", FILES)
     if ctx.replay:
         cases = [{k: json.loads(ln)[k] for k in CASE_KEYS} for ln in vf.read_lines(ctx.replay)]
@@ -133,7 +141,7 @@ def run(ctx):
         gen = [json.loads(ln) for ln in vf.read_lines(casep0)]
         gen.sort(key=lambda c: json.dumps(c, sort_keys=True))
         base = [c for c in gen if c["tag"] in ("valid", "cutinstr", "target", "mask")]
-        cases = gen + flips(ctx, base, 1800 if ctx.quick else 150000)
+        cases = gen + flips(ctx, base, 1800 if ctx.quick else 120000)
         if "sbrk_eager_alloc" not in ctx.known_slugs():
             pass   # nothing to steer: the generator holds a single large-sbrk case
     if ctx.quick:   # the standard-wrapper twins of the cut-instruction programs: every third one
